@@ -18,11 +18,11 @@ ASSUMPTIONS = ['PurePath (scripts.destdir_join) and posixpath.isabs are replaced
                'pathlib / posixpath, so a model error shows up as a validation mismatch', 'os.stat (is_executable), chmod, chown, copy, makedirs, symlink are recorders / symbolic stubs',
                'no ".." component in install paths (meson does not forbid it in install_dir; with it containment does not hold lexically - stated as a precondition)',
                'POSIX host']
-OUT = ('STATED PROMINENTLY: actual file-system effects, the install log and uninstall, idempotence of re-installation, install_subdir walking with excludes, stripping, rpath fixing, '
+OUT = ('STATED PROMINENTLY: file-system effects, the install log, uninstall and re-installation beyond the plans of the install-world obligation (no build targets: stripping, rpath fixing; no install scripts), '
        'install_targets (needs real files). This check decides WHERE and WITH WHICH MODE meson asks the OS to write, and which entries are selected.')
 MANIFEST = dict(
     text='Bounded symbolic decision of path re-rooting (all destdir/prefix/path strings within the bound), permission arithmetic (all umasks, all permission strings, both executable '
-         'states) and selection (all tag / subproject combinations). Plus three small file-system worlds run through the real do_symlink / do_copyfile / do_copydir with --dry-run and the exclusion set symbolic. Partial claim: real file-system effects, uninstall and re-install idempotence of whole trees are outside.',
+         'states) and selection (all tag / subproject combinations). Plus three small file-system worlds run through the real do_symlink / do_copyfile / do_copydir with --dry-run and the exclusion set symbolic. Whole installs (log, uninstall, dry run, twice) are decided for the plans of install-world on a scratch directory; build targets (strip, rpath) and install scripts are outside.',
     note='Partial claim. Trusted: symx engine, z3, the harness models of PurePath / isabs (validated natively on sampled paths). Bounds: path strings <=3 characters over {/, ., a, b}.')
 
 MI = SC = FM = BK = ME = None
@@ -458,6 +458,111 @@ def osp(name):
     return f
 
 
+def _tree(top):
+    """every file / symlink / directory below top, relative"""
+    import os
+    out = set()
+    for root, dirs, files in os.walk(top):
+        for n in dirs + files:
+            p = os.path.join(root, n)
+            out.add((os.path.relpath(p, top), 'link' if os.path.islink(p) else ('dir' if os.path.isdir(p) else 'file')))
+    return out
+
+
+def ob_install_world():
+    """a whole `meson install` on a scratch directory (the real Installer.do_install, DirMaker, log, then the real uninstall script): a plan of up to six
+    entries (data file to a relative and to an ABSOLUTE destination, header, empty directory, symlink, subdirectory) each present or not with a tag, --tags,
+    --dry-run, DESTDIR with a space. Everything created lies beneath DESTDIR; exactly the selected entries exist; the log names exactly what was created and
+    uninstall removes exactly that; a dry run creates nothing; installing twice gives the same tree as once"""
+    def h():
+        import os, tempfile, shutil, pickle, argparse, io, contextlib
+        from mesonbuild import coredata
+        from mesonbuild.scripts import uninstall
+        top = tempfile.mkdtemp(prefix='c11w')
+        old_umask = os.umask(0o022)
+        try:
+            src, bld, dest = os.path.join(top, 'src'), os.path.join(top, 'bld'), os.path.join(top, 'dest dir')
+            os.makedirs(os.path.join(src, 'tree', 'inner')); os.makedirs(os.path.join(bld, 'meson-logs')); os.makedirs(dest)
+            for rel in ('d.txt', 'abs.txt', 'h.h', 'tree/a.txt', 'tree/inner/b.txt'):
+                with open(os.path.join(src, rel), 'w') as f: f.write(rel)
+            prefix = '/usr'
+            absdir = os.path.join(top, 'outside', 'abs')            # an absolute destination: it must be re-rooted under DESTDIR
+            d = BK.InstallData(src, bld, prefix, 'lib', ['strip'], 0o022, ['meson', 'introspect'], coredata.version)
+            tags = ['runtime', 'devel']
+            want = {}            # relative path under DESTDIR -> kind, for the entries selected
+            present = []
+            def ent(name): 
+                p = choose(2, name + ' declared') == 1
+                t = tags[choose(2, name + ' tag')] if p else None
+                return p, t
+            sel_tags = [None, ['runtime'], ['devel']][choose(3, '--tags')]
+            selected = lambda t: sel_tags is None or t in sel_tags
+            p, t = ent('data')
+            if p:
+                d.data.append(BK.InstallDataBase(os.path.join(src, 'd.txt'), 'share/d.txt', '{datadir}/d.txt', FM(), '', tag=t))
+                if selected(t): want['usr/share/d.txt'] = 'file'
+            p, t = ent('absolute data')
+            if p:
+                d.data.append(BK.InstallDataBase(os.path.join(src, 'abs.txt'), os.path.join(absdir, 'abs.txt'), os.path.join(absdir, 'abs.txt'), FM(), '', tag=t))
+                if selected(t): want[os.path.relpath(os.path.join(absdir, 'abs.txt'), '/')] = 'file'
+            p, t = ent('header')
+            if p:
+                d.headers.append(BK.InstallDataBase(os.path.join(src, 'h.h'), 'include/x', '{includedir}/x', FM(), '', tag=t))
+                if selected(t): want['usr/include/x/h.h'] = 'file'
+            p, t = ent('emptydir')
+            if p:
+                d.emptydir.append(BK.InstallEmptyDir('var/empty', FM(), '', tag=t))
+                if selected(t): want['usr/var/empty'] = 'dir'
+            p, t = ent('symlink')
+            if p:
+                d.symlinks.append(BK.InstallSymlinkData('d.txt', 'share/lnk', 'share', '', tag=t))      # as generate_symlink_install builds it: name = install_dir/name
+                if selected(t): want['usr/share/lnk'] = 'link'
+            p, t = ent('subdir')
+            if p:
+                d.install_subdirs.append(BK.SubdirInstallData(os.path.join(src, 'tree'), os.path.join(prefix, 'share/tree'), '{datadir}/tree', FM(), (set(), set()), '', tag=t))
+                if selected(t):
+                    want.update({'usr/share/tree': 'dir', 'usr/share/tree/a.txt': 'file', 'usr/share/tree/inner': 'dir', 'usr/share/tree/inner/b.txt': 'file'})
+            datafile = os.path.join(bld, 'install.dat')
+            with open(datafile, 'wb') as f: pickle.dump(d, f)
+            dry = choose(2, '--dry-run') == 1
+            twice = (not dry) and choose(2, 'install twice') == 1
+            logname = os.path.join(bld, 'meson-logs', 'install-log.txt')
+            before_outside = _tree(top)
+
+            def install(dry_run):
+                opts = argparse.Namespace(dry_run=dry_run, skip_subprojects='', tags=','.join(sel_tags) if sel_tags else None, destdir=dest, quiet=True, only_changed=False,
+                                          strip=False, wd=bld, profile=False, no_rebuild=True)
+                with open(logname, 'w', encoding='utf-8') as lf:
+                    MI.Installer(opts, lf).do_install(datafile)
+            install(dry)
+            got = _tree(dest)
+            if dry:
+                check(got == set(), '--dry-run creates nothing under DESTDIR')
+                check(_tree(top) - {('bld/meson-logs/install-log.txt', 'file'), ('bld/install.dat', 'file')} == before_outside - {('bld/meson-logs/install-log.txt', 'file'), ('bld/install.dat', 'file')}, '--dry-run writes nothing anywhere else')
+                cover('dry-run'); return
+            leaves = {(p_, k) for p_, k in got if (p_, k) in set(want.items())}
+            check({p_ for p_, k in got if k != 'dir'} == {p_ for p_, k in want.items() if k != 'dir'}, 'exactly the files and symlinks of the selected install rules exist, at the specified destinations (absolute ones re-rooted under DESTDIR)')
+            check(all((p_, k) in got for p_, k in want.items()), 'every declared directory exists')
+            outside = _tree(top) - {(os.path.join('dest dir', p_) if p_ else 'dest dir', k) for p_, k in got}
+            check(outside - {('bld/meson-logs/install-log.txt', 'file'), ('bld/install.dat', 'file')} == before_outside - {('bld/meson-logs/install-log.txt', 'file'), ('bld/install.dat', 'file')}, 'nothing is written outside DESTDIR (apart from the log)')
+            if twice:
+                install(False)
+                check(_tree(dest) == got, 'installing twice gives the same tree as installing once')
+                cover('twice')
+            if not twice:
+                logged = [l.strip() for l in open(logname) if not l.startswith('#')]
+                check(len(logged) == len(set(logged)), 'nothing is logged twice')
+                check({os.path.relpath(l, dest) for l in logged} == {p_ for p_, k in got}, 'the install log names exactly what was created')
+                with contextlib.redirect_stdout(io.StringIO()):
+                    uninstall.do_uninstall(logname)
+                check(_tree(dest) == set(), 'uninstall removes exactly what the install created')
+            cover('installed' if want else 'nothing-selected')
+        finally:
+            os.umask(old_umask)
+            shutil.rmtree(top, ignore_errors=True)
+    return h
+
+
 def obligations(tier):
     q = tier == 'quick'
     out = []
@@ -469,6 +574,7 @@ def obligations(tier):
     out.append(Obligation('is-executable', ob_isexec(), dict(mode='9 symbolic permission bits', umask='022'), labels=('done',)))
     out.append(Obligation('selection', ob_selection(), dict(tags='none | runtime | runtime,devel', skip_subprojects='none | sub | *', entry='4 tags x 3 subprojects', dry_run='symbolic'),
                           labels=('admitted', 'skipped')))
+    out.append(Obligation('install-world', ob_install_world(), dict(real='Installer.do_install, DirMaker, append_to_log, scripts.uninstall.do_uninstall on a scratch directory', entries='data (relative), data (absolute), header, emptydir, symlink, subdir: each declared or not, tag runtime | devel', tags='none | runtime | devel', dry_run='both', twice='both', destdir='with a space'), labels=('installed', 'dry-run', 'twice'), optional_labels=('nothing-selected',), max_paths=2000000))
     out.append(Obligation('copydir-world', ob_copydir_world(), dict(tree='directories a, b, c and a nested a/b (each empty or with one file) + a top-level file', exclude_directories='symbolic subset of the relative paths a, b, c, a/b', exclude_files='symbolic subset'), labels=('done',)))
     out.append(Obligation('copyfile-world', ob_copyfile_world(), dict(destination='absent | file | directory', source='file | live symlink | dangling symlink | absent', dry_run='symbolic', destination_dir='exists or not'),
                           labels=('installed', 'dry-run', 'refused')))
